@@ -7,6 +7,8 @@ table) are covered by induction; the invariant is re-established by every succes
 """
 import time
 
+import os
+
 import z3
 
 from . import sqlmodel
@@ -139,7 +141,7 @@ def check(ex, pc, claim, what, extra=(), prefer=()):
     pick a counterexample that can be replayed on the real clock (dropped if they make the query unsat)."""
     ex.queries += 1
     s = z3.Solver()
-    s.set("timeout", 60000)
+    s.set("timeout", 2 * int(os.environ.get("VERIF_Z3_TIMEOUT_MS", "60000")))
     for c in pc:
         s.add(c)
     for c in extra:
